@@ -62,6 +62,9 @@ var configs = []config{
 	{Name: "n3-same-hash", Powers: []int64{1, 1, 1}, Class: "small", SameHash: true, Len: [4]int{3, 6, 2, 5}},
 	{Name: "n4-1234", Powers: []int64{1, 2, 3, 4}, Class: "small", Len: [4]int{4, 5, 3, 4}, Ext: true},
 	{Name: "n4", Powers: []int64{1, 1, 1, 1}, Class: "small", Len: [4]int{3, 5, 2, 4}, Ext: true},
+	// the same sets as they stand after a block with validator changes / after a reload (cached fields unset or stale)
+	{Name: "n3-built-by-add-update", Powers: []int64{1, 1, 1}, Class: "small", Build: "add-update", Len: [4]int{3, 5, 2, 4}},
+	{Name: "n4-1234-reloaded-then-updated", Powers: []int64{1, 2, 3, 4}, Class: "small", Build: "reload-update", Len: [4]int{3, 4, 2, 3}},
 	// total = 2^62-1 = 3k: 2*total is the largest such product that still fits
 	// int64; {k,k} is exactly 2/3 (no majority), {k,k,1} exceeds it by one.
 	{Name: "n4-boundary", Powers: []int64{1537228672809129301, 1537228672809129301, 1537228672809129300, 1}, Class: "boundary", Len: [4]int{3, 5, 2, 4}},
